@@ -91,6 +91,19 @@ def add_json_tags(rng, pkg, p=0.22):
                 fd["tag"] = '`json:"%s"`' % key
 
 
+SNAKE_EXPORTED = ["Max_Size", "Base_Dir", "Item_count", "Api_URL", "Is_Open"]
+
+
+def add_exported_snake(rng, pkg, p=0.25):
+    """exported fields whose names change under Pascal-casing (regression of K_json_exported_snake, repaired d93a0ce)"""
+    if rng.random() >= p:
+        return
+    sd = rng.choice(pkg["structs"])
+    n = rng.choice(SNAKE_EXPORTED)
+    t = ctorgen.T_basic(rng.choice(["int", "string", "bool"]))
+    sd["fields"].insert(rng.randrange(0, len(sd["fields"]) + 1), ctorgen.fdecl([n], t))
+
+
 def json_tag_of(fd):
     if fd["tag"] is None:
         return ""
@@ -104,12 +117,6 @@ def precheck(pkg, sd, selected):
     if cls == "bad":
         return "bad"
     occ, best = c02.selectable(pkg, sd)
-    for name, (d, os_) in best.items():
-        o = os_[0]
-        if o[3] and o[4]:
-            continue
-        if name[:1].isupper() and "_" in name:
-            return "bad"            # K_json_exported_snake: does not compile
     for fd in sd["fields"]:
         t = json_tag_of(fd)
         if t and (t == "-" or "," in t):
@@ -170,6 +177,7 @@ def gen_packages(run, n):
         getset = run.rng.random() < 0.85
         fatal = getset and run.rng.random() < 0.03
         pkg = ctoracc.gen_acc_pkg(run.rng, name, p_exported_dir=0.5 if fatal else 0.0, **opts)
+        add_exported_snake(run.rng, pkg)
         add_json_tags(run.rng, pkg)
         ctoracc.add_groups(run.rng, pkg, p=0.08)
         names = [sd["name"] for sd in pkg["structs"]]
@@ -590,7 +598,7 @@ def main(run):
     outcome = run.replay_findings(finding_handlers(run, shoot))
     run.log("findings replayed")
 
-    npk = 700 if run.thorough() else 60
+    npk = 700 if run.thorough() else 48
     pkgs, gstats = gen_packages(run, npk)
     obs, mod = observe(run, shoot, accbin, "c11mod", pkgs)
     pkgdefs, rendered = render_cases(pkgs, obs)
@@ -636,6 +644,7 @@ def main(run):
             zs = dict((tuple(p), t) for p, t in o["zeros"])
             lv = dict((tuple(p), t) for p, t in o["leaves"])
             bump("explicit_tags", sum(1 for fd in sd["fields"] if json_tag_of(fd)))
+            bump("exported_snake_fields", sum(1 for fd in sd["fields"] for n in fd["names"] if n[:1].isupper() and "_" in n))
             bump("promoted_keys", max(0, len(o["keys"]) - sum(len(fd["names"]) for fd in sd["fields"] if fd["names"])))
             bump("fields_changed_by_unmarshal", sum(1 for (p, a), (_, b) in zip(o["after"], o["before"]) if a != b))
             bump("fields_kept_by_unmarshal", sum(1 for (p, a), (_, b) in zip(o["after"], o["before"]) if a == b))
@@ -696,7 +705,7 @@ TRUSTED = [
 ]
 
 ASSUMPTIONS = c03.ASSUMPTIONS + [
-    "c11_guard additionally: exported field names are unchanged by Pascal-casing (K_json_exported_snake), no json tag on a "
+    "c11_guard additionally: no json tag on a "
     "field of an embedded struct (K_json_promoted_tag_lost), explicit tags are plain member names (no options, not `-`), "
     "member names distinct under case folding, embedded shoot structs are generated before the struct (complete view), and "
     "the struct needs JSON code itself (K_json_promoted_marshaler: otherwise an embedded type's MarshalJSON is promoted)",
